@@ -4,6 +4,7 @@ import (
 	"encoding/hex"
 	"encoding/json"
 	"fmt"
+	"math/big"
 	"reflect"
 	"sync"
 	"time"
@@ -32,6 +33,7 @@ type c14Case struct {
 	I    int    `json:"i"`
 	Seq  []int  `json:"seq,omitempty"`
 	Dir  string `json:"dir,omitempty"`
+	Seed int64  `json:"seed,omitempty"`
 }
 
 func c14Outer(i int) (inner, outer reflect.Value) {
@@ -336,6 +338,9 @@ func c14Alias(t *tr.Writer, id int, c c14Case) {
 	inputs := [][]byte{
 		[]byte("s5\"hello\""), []byte("b5\"bytes\""), []byte("a2{s5\"hello\"b3\"abc\"}"), []byte("m1{s3\"key\"s5\"value\"}"),
 		[]byte("c5\"Plain\"3{uaubuc}o0{1s5\"field\"0}"), []byte("a2{s5\"hello\"r1;}"), []byte("ux"), []byte("s3\"1.5\""), []byte("g{01234567-89ab-cdef-0123-456789abcdef}"),
+		// numbers, dates and other non-text items read into text and byte destinations
+		[]byte("i12345;"), []byte("l1234567890123;"), []byte("d3.14159;"), []byte("a3{i123;d1.5;l99999999999;}"), []byte("D20210102T030405Z"),
+		[]byte("a2{i777;i888;}"), []byte("m1{i12345;d2.5;}"), []byte("t"), []byte("5"),
 	}
 	dests := []func() interface{}{
 		func() interface{} { var v interface{}; return &v }, func() interface{} { var v string; return &v }, func() interface{} { var v []byte; return &v },
@@ -382,6 +387,83 @@ func c14Alias(t *tr.Writer, id int, c c14Case) {
 	}
 }
 
+// concurrent coding of plain values: G goroutines encode and decode their own distinct values over and
+// over (negative and positive integers of every width, floats, strings, times, big numbers, byte slices,
+// small lists and maps); every result is compared with what the same value gives alone (computed before
+// the goroutines start). State shared between coders - a scratch buffer, a cache filled on the fly -
+// shows as one goroutine's digits in another's output.
+func c14Conc(t *tr.Writer, id int, c c14Case) {
+	rng := tr.NewRng(c.Seed)
+	type job struct {
+		v    interface{}
+		want string
+	}
+	G, rounds := 8, 400
+	jobs := make([][]job, G)
+	for g := range jobs {
+		for k := 0; k < 12; k++ {
+			var v interface{}
+			x := int64(rng.U64()>>uint(rng.Intn(60))) + 1
+			switch k % 12 {
+			case 0:
+				v = -x
+			case 1:
+				v = x
+			case 2:
+				v = int32(-(x % 2000000000))
+			case 3:
+				v = int8(-(x % 120))
+			case 4:
+				v = uint64(x) << 1
+			case 5:
+				v = -float64(x) / 7
+			case 6:
+				v = float32(x%100000) / 3
+			case 7:
+				v = fmt.Sprintf("s%d-%d", g, x)
+			case 8:
+				v = time.Unix(x%4000000000, (x%1000)*1000000).UTC()
+			case 9:
+				v = big.NewInt(-x)
+			case 10:
+				v = []int64{-x, x, -x / 3}
+			default:
+				v = map[string]int64{fmt.Sprintf("k%d", g): -x}
+			}
+			jobs[g] = append(jobs[g], job{v, marshalHex(v, k%2 == 0)})
+		}
+	}
+	var mu sync.Mutex
+	bad := map[string][2]string{}
+	var wg sync.WaitGroup
+	for g := 0; g < G; g++ {
+		wg.Add(1)
+		go func(g int) {
+			defer wg.Done()
+			for r := 0; r < rounds; r++ {
+				for k, j := range jobs[g] {
+					got := marshalHex(j.v, k%2 == 0)
+					if got != j.want {
+						mu.Lock()
+						if len(bad) < 8 {
+							bad[fmt.Sprintf("%T", j.v)] = [2]string{got, j.want}
+						}
+						mu.Unlock()
+					}
+				}
+			}
+		}(g)
+	}
+	wg.Wait()
+	if len(bad) == 0 {
+		emit14(t, id, c, "concurrent-encode", "same", "same")
+		return
+	}
+	for ty, gw := range bad {
+		emit14(t, id, c, "concurrent-encode:"+ty, gw[0], gw[1])
+	}
+}
+
 func runC14(a Args) tr.Summary {
 	t := tr.New(a.Out)
 	defer t.Close()
@@ -397,6 +479,8 @@ func runC14(a Args) tr.Summary {
 			c14Pool(t, id, c)
 		case "alias":
 			c14Alias(t, id, c)
+		case "conc":
+			c14Conc(t, id, c)
 		}
 	}
 	if a.Only != "" {
@@ -448,6 +532,10 @@ func runC14(a Args) tr.Summary {
 	rec(nil)
 	id++
 	run(id, c14Case{What: "alias"})
+	for k := 0; k < 3; k++ {
+		id++
+		run(id, c14Case{What: "conc", Seed: a.Seed*97 + int64(k)})
+	}
 	sum.Cases = id
 	sum.Events = t.Lines
 	sum.Nontrivial = id
